@@ -40,7 +40,7 @@ impl Leaf {
     }
 }
 
-/// the block `{c:<id>rpx;d:.x}` — the id makes every rule identifiable
+/// the block `{c:<id>rpx;d:.x;e:"é😀"}` — the id makes every rule identifiable
 fn push_block(sh: &mut Sheet, id: u32) {
     sh.plain("{", "rule");
     sh.plain("c", "decl");
@@ -51,6 +51,11 @@ fn push_block(sh: &mut Sheet, id: u32) {
     sh.plain(":", "decl");
     sh.plain(".", "value");
     sh.plain("x", "value");
+    // (non-ASCII text in every block: byte offsets and UTF-16 offsets of the output differ from the first rule on)
+    sh.plain(";", "decl");
+    sh.plain("e", "decl");
+    sh.plain(":", "decl");
+    sh.plain("\"é😀\"", "value");
     sh.plain("}", "rule");
 }
 
@@ -288,7 +293,7 @@ fn shape(nodes: &[Node]) -> String {
 pub fn check_tree(nodes: &[Node], opts: &Opts) -> Result<Vec<(String, String)>, String> {
     let b = build(nodes, opts);
     let text = b.input.text();
-    let run = css::transform("h.wxss", &text, opts, 0, false).map_err(|(s, m)| format!("{}: {}", s, m))?;
+    let run = css::transform("h.wxss", &text, opts, 0, false).map_err(|(s, m)| crate::common::panic_err(&text, &opts.to_json(), &s, &m))?;
     let eo = ExpectOpts { class_prefix: opts.class_prefix.as_deref(), class_prefix_sign: opts.class_prefix_sign.as_deref(), rpx_ratio: opts.rpx_ratio };
     let mut problems = vec![];
     for (name, virt, out) in [("normal", &b.normal, &run.normal), ("low-priority", &b.low, &run.low)] {
@@ -350,7 +355,7 @@ pub fn explore(thorough: bool, result_path: &str) {
         rep.evaluations += 1;
         rep.count(&format!("space:{}", space), 1);
         match check_tree(&nodes, o) {
-            Err(m) => rep.machinery_errors.push(m),
+            Err(m) => rep.engine_error("C17", m),
             Ok(problems) => {
                 let has_host = describe(&nodes).contains("Host");
                 if has_host && o.convert_host {
